@@ -416,6 +416,13 @@ func (fc *funcCtx) havocValue(st *State, old Value, hint string) Value {
 
 func (fc *funcCtx) heap(st *State, key string) string {
 	if h, ok := st.heaps[key]; ok {
+		if len(h) > 600 {
+			// a store writes the old heap term twice: name long terms, or n stores cost 2^n characters
+			c := st.freshConst("heapv", heapSort(sortOfHeapKey(key)))
+			st.assume(app("=", c, h))
+			st.heaps[key] = c
+			return c
+		}
 		return h
 	}
 	h := st.freshConst("heap0_"+key, heapSort(sortOfHeapKey(key)))
